@@ -77,6 +77,9 @@ func (SlidingWindow) New(cfg Config) fiber.Handler {
 		// Increment hits
 		e.currHits++
 
+		// The window this request is counted in, identified by its end
+		countedExp := e.exp
+
 		// Calculate when it resets in seconds
 		resetInSec := e.exp - ts
 
@@ -135,9 +138,19 @@ func (SlidingWindow) New(cfg Config) fiber.Handler {
 				mux.Unlock()
 				return getErr
 			}
-			// the entry may have expired while the handler ran: never count below zero
-			if e.currHits > 0 {
-				e.currHits--
+			// Un-count the request where its hit is now: in the current hits while its window is
+			// still the current one, in the previous hits after exactly one roll-over, nowhere
+			// after that (the hits then belong to requests of later windows).
+			switch {
+			case e.exp == countedExp:
+				if e.currHits > 0 {
+					e.currHits--
+				}
+			case e.exp == countedExp+expiration:
+				if e.prevHits > 0 {
+					e.prevHits--
+				}
+			default:
 			}
 			remaining++
 			// Keep the entry until the end of the next window, like the counting section does:
